@@ -1,5 +1,5 @@
 (** C01: refutations kept as findings (each closed by vm_compute in proofs/PatIndexProofs.v). *)
-From Verif Require Import Json Outcome Match PatIndex PatIndexSpec PatIndexProofs.
+From Verif Require Import Json Outcome Match PatIndex PatIndexSpec PatIndexProofs DispatchSpec DispatchProofs.
 (** D6: a pattern with a property-variable key is shadowed by a concrete key. *)
 Definition propvar_shadow := propvar_shadow_refuted.
 (** D32 (repaired in /repo): a `null` element of a pattern array used to be cast
@@ -8,3 +8,16 @@ Definition propvar_shadow := propvar_shadow_refuted.
 Definition null_in_array_found := null_in_array_now_found.
 (** Two variables in one array pattern (outside the documented fragment). *)
 Definition two_array_vars_refuted := two_array_vars_counterexample.
+
+(** D30: a rule whose `when` has no "pattern" member is indexed under the whole
+    `when` map but re-matched against the empty pattern. *)
+Definition direct_when_matched_by_index_only := direct_when_matched_by_index_only_counterexample.
+(** A stored rule with both a schedule and a when (accepted by AddFact, not by
+    AddRule) is treated differently by the two state kinds. *)
+Definition scheduled_with_when_linear_only := scheduled_with_when_linear_only_counterexample.
+(** The hypotheses of dispatch_exact_indexed are satisfiable: a concrete history
+    with an overwritten, a removed and a fact-overwritten rule. *)
+Definition dispatch_hypotheses_satisfiable := dispatch_example.
+(** After a removal / an overwrite the old pattern never dispatches the id. *)
+Definition removed_rule_never_dispatched := DispatchProofs.removed_rule_never_dispatched.
+Definition overwritten_rule_never_dispatched := DispatchProofs.overwritten_rule_never_dispatched.
